@@ -866,7 +866,12 @@ func resolvedEq(a, b ssa.Value) bool {
 		return false
 	}
 	ra, rb := rvAny(a), rvAny(b)
-	return sameValue(ra, rb)
+	if sameValue(ra, rb) {
+		return true
+	}
+	// a variable assigned on several branches (a phi) and the value it holds on this path
+	pa, pb := valueOnPath(ra, curPath.path), valueOnPath(rb, curPath.path)
+	return (pa != ra || pb != rb) && sameValue(pa, pb)
 }
 
 func pathAsserts(path []ssa.Instruction, pred func(c ssa.Value, truth bool) bool) bool {
